@@ -49,12 +49,19 @@ def bits_rule(ctx, facts, cfg):
         if f is None:
             ctx.missing(rid, key)
             continue
-        try:
-            r, m = I.run(key, ['SELF'], H)
-            got = r.bits if isinstance(r, BV) else [r]
-            check_bits(ctx, rid, key, 'result of %s()' % name, got, exp, f['at'], cfg)
-        except Exception as e:  # noqa
-            ctx.violation(rid, key, 'undecided', 'bit-level evaluation of %s failed: %s: %s' % (key, type(e).__name__, e), site=f['at'], kind='undecided', config=cfg)
+        # the summaries hold whether or not an OPT record was seen: evaluate with the optional EDNS fields absent and present
+        from analysis.bits import EnumV
+        scenarios = [('no OPT', {'ext_rcode': EnumV('std::option::Option', 0, []), 'edns_version': EnumV('std::option::Option', 0, [])}),
+                     ('OPT seen', {'ext_rcode': EnumV('std::option::Option', 1, [BV.sym('x', 8)]), 'edns_version': EnumV('std::option::Option', 1, [BV.sym('v', 8)])})]
+        for sc_name, fields in scenarios:
+            try:
+                I.self_fields = fields
+                r, m = I.run(key, ['SELF'], H)
+                got = r.bits if isinstance(r, BV) else [r]
+                check_bits(ctx, rid, key, 'result of %s() [%s]' % (name, sc_name), got, exp, f['at'], cfg)
+            except Exception as e:  # noqa
+                ctx.violation(rid, key, 'undecided', 'bit-level evaluation of %s failed: %s: %s' % (key, type(e).__name__, e), site=f['at'], kind='undecided', config=cfg)
+        I.self_fields = {}
     f = facts.fn(PP + '::max_payload')
     if f:
         defs = F.single_defs(f)
